@@ -31,6 +31,9 @@ CLAIMED = {
     "C08": ("round-trip of generated frames through the real IO classes over scripted transports with generated chunking vs. a reference frame codec; concurrent senders under the deterministic scheduler with a wire-parsing oracle; real multi-threaded transfers over popen/socket/via",
             "Generated messages (all types, full channel-id range, payloads to 256 KB / 8 MB) must produce exactly the reference frame bytes and be read back identically under every generated read chunking and partial-send pattern; with 2-5 concurrent sender threads under a generated schedule (plus line-level and strided/exhaustive single preemption) the recorded wire must parse into whole reference frames with per-sender order intact; real transports carry multi-sender programs with payloads beyond pipe/socket buffers and a transcript oracle.",
             "Sampling. Scripted transports model documented OS behaviour (short reads, partial sends, atomic pipe write per call). Real part has a 150 s watchdog per program (normal < 2 s).", "3/C08"),
+    "C14": ("generated remote_exec histories on an in-process main_thread_only worker under the deterministic scheduler (virtual time), history oracle; sampled on real popen workers with real SIGINT",
+            "Generated histories (return / raise / SystemExit / interrupt / blocked, sequential or overlapping submission) run against a real WorkerGateway with the main_thread_only model inside the scheduler, so receiver-vs-main-thread interleavings and the 1-second grace wait are generated/virtual; the oracle checks thread identity of every body, strict start/end alternation in submission order, the documented deadlock error exactly for overlapping submissions, and that a submission after the previous close always runs.",
+            "Sampling. Virtual time models 'threads are fast relative to the 1 s wait'. Real part small (16 quick / 400 thorough histories).", "3/C14"),
 }
 
 NOT_APPLICABLE = {}
